@@ -75,4 +75,28 @@ def metresOK (u : Unit) (t : Trip) : Bool := dMetres u t ≤ lenTol
 /-- the property on one position -/
 def holds (u : Unit) (t : Trip) : Bool := noError t && angleOK t && metresOK u t
 
+/-! ## The same property on the closure pair of `(*SR).Transformers` (radians, metres)
+
+`fwd, inv := sr.Transformers()` obtained ONCE and reused: every in-region call — also after calls
+that the projection legitimately rejected (a pole, NaN) — reports no error, un-projecting returns
+the position within 1e-6 degrees and projecting again reproduces the coordinates within 1 cm. -/
+
+def radTol : Float := angTol * pi / 180.0
+
+/-- difference of two longitudes in radians, as angles -/
+def lonDistRad (a b : Float) : Float :=
+  let d := (a - b).abs
+  let d := d - 2.0 * pi * (d / (2.0 * pi)).floor
+  if d ≤ pi then d else 2.0 * pi - d
+
+def closureAngleOK (t : Trip) : Bool :=
+  lonDistRad t.p.1 t.p2.1 ≤ radTol && (t.p.2 - t.p2.2).abs ≤ radTol
+
+def closureMetres (t : Trip) : Float :=
+  let dx := t.q.1 - t.q2.1
+  let dy := t.q.2 - t.q2.2
+  (dx * dx + dy * dy).sqrt
+
+def closureHolds (t : Trip) : Bool := noError t && closureAngleOK t && closureMetres t ≤ lenTol
+
 end GeomV.C08.Spec
